@@ -125,7 +125,7 @@ theorem remove_strip (t : Item ι V) (id : ι) :
 
 /-! ### retain -/
 
-theorem retain_strip (t : Item ι V) (f : ι → V → Bool) : (t.retain f).strip = t.strip.retain f := by
+theorem retain_strip (t : Item ι V) (f : ι → V → Option V) : (t.retain f).strip = t.strip.retain f := by
   induction t using Item.ind with
   | hE ic => simp [retain_empty]
   | hL rx vs =>
@@ -214,7 +214,8 @@ theorem run_reachable (E : Engine) {ic : Bool} (P : List Char → Prop) (ops : L
       refine ih _ (inv_retain t f hinv) ?_ (fun q hq => hins q (by simpa [insertedPats] using hq)) t' h
       intro e he
       rw [contents_retain] at he
-      exact hP e (List.mem_filter.1 he).1
+      obtain ⟨e0, he0, hp, _, _⟩ := mem_refRetain he
+      rw [hp]; exact hP e0 he0
     | cache limit level =>
       obtain ⟨tc, n, hc, hs, _⟩ := treeCache_spec E t limit level
       simp only [treeRun, treeStep, hc, Option.map_some] at h
